@@ -9,7 +9,7 @@ export CARGO_NET_OFFLINE=true CARGO_TARGET_DIR=/tmp/cs/target TMPDIR=/tmp/cs/tmp
 OUT=$RES/$ID-$AB.json
 [ -f $SRC/patch.diff ] || { echo "{\"seed\":\"$ID-$AB\",\"error\":\"no patch\"}" > $OUT; exit 0; }
 git -C /repo worktree remove --force $WT 2>/dev/null; rm -rf $WT
-git -C /repo worktree add --detach $WT HEAD >/dev/null 2>&1
+git -C /repo worktree add --detach $WT ${BASE:-HEAD} >/dev/null 2>&1
 cd $WT
 DEMO=$(python3 -c "import json;print(json.load(open('$SRC/meta.json')).get('demo_path','tests/seed_demo_$AB.rs'))" 2>/dev/null || echo tests/seed_demo_$AB.rs)
 cp $SRC/demo.rs $DEMO
@@ -26,6 +26,6 @@ if [ $APPLY = ok ]; then
   SUITE="$P passed $F failed"
   if run_demo patched; then PD=pass; else PD=fail; fi
 fi
-echo "{\"seed\":\"$ID-$AB\",\"head\":\"$(git -C /repo rev-parse --short HEAD)\",\"apply\":\"$APPLY\",\"baseline_demo\":\"$BASE\",\"patched_suite\":\"$SUITE\",\"patched_demo\":\"$PD\"}" > $OUT
+echo "{\"seed\":\"$ID-$AB\",\"head\":\"$(git -C $WT rev-parse --short HEAD 2>/dev/null || echo ${BASE:-HEAD})\",\"apply\":\"$APPLY\",\"baseline_demo\":\"$BASE\",\"patched_suite\":\"$SUITE\",\"patched_demo\":\"$PD\"}" > $OUT
 cd /; git -C /repo worktree remove --force $WT; rm -rf /tmp/cs/tmp-$ID-$AB
 cat $OUT
